@@ -153,6 +153,17 @@ def build_simple_pt(case):
         shape = (left, right, d * d) if case["rank"] == 3 else (
             left, right, d * d, d * d)
         t = (rng.normal(size=shape) + 1j * rng.normal(size=shape)) / chi
+        if n > 12:
+            # long chains of plain random tensors over- or underflow when
+            # they are contracted (and comparing infinities says nothing):
+            # identity-like tensors with a random perturbation instead
+            base = np.zeros(shape, dtype=complex)
+            for a in range(min(left, right)):
+                if case["rank"] == 3:
+                    base[a, a, :] = 1.0
+                else:
+                    base[a, a] = np.identity(d * d)
+            t = base + 0.05 * t
         lay = case.get("layout", "c")
         if lay == "f":
             t = np.asfortranarray(t)
